@@ -54,7 +54,8 @@ RULE = ('message case = header (int / ext-in / ext-out; addr_std wc -128..127 wi
         'biased to top-bit-set) x extra-currency dictionary of 0..3 entries x state-init (absent or any subset of '
         'split_depth, special, code, data, library) x body whose size is drawn around the inline capacity computed by '
         'the model (capacity-1, capacity, capacity+1 bits; capacity-1/0/+1 refs; also 0, 1023 bits, 0 and 4 refs). '
-        'message-grid enumerates header kind x extra x init shape x target placement x (dbits, drefs) in {-1,0,+1,min,max}^2. '
+        'message-grid enumerates header kind x extra x init shape x target placement x (dbits, drefs) in {-1,0,+1,min,max}^2; '
+        'message-near-full-header enumerates internal headers of exactly 1003..1023 bits x init shape x 5 body sizes. '
         'wrapper case = a reftlb-generated value of one of the eight stand-alone types. '
         'non-trivial (message) = the init or the body does not fit inline, or extra currencies are present; '
         'non-trivial (wrapper) = an optional part / dictionary / reference is present; distinct = distinct case')
@@ -409,9 +410,20 @@ def v_wrapper(kind, o):
 # --------------------------------------------------------------------------------------------------
 # the checks
 
+ADDR_FIELDS = ('src', 'dest', 'collection_address', 'owner_address')
+
+
 def _sigpath(p):
-    """field path without indices: info.value.other.dict[0][1] -> info.value.other.dict"""
-    return re.sub(r'\[[^\]]*\]', '', p).rstrip('.') or 'value'
+    """field path as a root-cause bucket: no indices, nothing below a cell (code.bits -> code), address fields cut at
+    the address (src.workchain_id -> src) except for the anycast part (src.anycast)"""
+    p = re.sub(r'\[[^\]]*\]', '', p).rstrip('.')
+    p = re.sub(r'\.(bits|refs|special)(\..*)?$', '', p)
+    toks = p.split('.')
+    for i, t in enumerate(toks):
+        if t in ADDR_FIELDS:
+            toks = toks[:i + 1] + (['anycast'] if toks[i + 1:i + 2] == ['anycast'] else [])
+            break
+    return '.'.join(toks) or 'value'
 
 
 def _res_of(e):
@@ -631,7 +643,10 @@ def _mk_body(ch, nb, nr):
 
 
 def gen_message(ch):
-    info = R.generate(INFO_STD, ch, budget=2)
+    if ch.int(0, 11) == 0:
+        info = _near_full_info(ch, ch.int(1003, 1023), ch.choice([0, 1]))
+    else:
+        info = R.generate(INFO_STD, ch, budget=2)
     init = R.generate(M.StateInit, ch, budget=2) if ch.choice([0, 1, 1]) else None
     msg = {'_': 'message', 'info': info, 'init': init, 'body': None}
     hb, hr, ib, ir, _, _ = sizes(dict(msg, body={'bits': '', 'refs': []}))
@@ -695,6 +710,49 @@ def _grid_init(ch, shape):
 
 
 DELTAS = ('-1', '0', '+1', 'min', 'max')
+
+
+def _near_full_info(ch, hb, extra=0):
+    """an internal header of exactly hb bits (1003..1023): both addresses with anycast, amounts sized to fit.
+    int_msg_info = 4 + 2 x (2+1+5+depth+8+256) + (4+8a+1) + (4+8b) + (4+8c) + 64 + 32 = 657 + d1 + d2 + 8(a+b+c)"""
+    need = hb - 657
+    k = ch.choice([k for k in range(0, 46) if 2 <= need - 8 * k <= 60])
+    dsum = need - 8 * k
+    d1 = ch.int(max(1, dsum - 30), min(30, dsum - 1))
+    a = ch.int(max(0, k - 30), min(15, k))
+    b = ch.int(max(0, k - a - 15), min(15, k - a))
+
+    def addr(d):
+        return {'_': 'addr_std', 'anycast': {'_': 'anycast_info', 'depth': d, 'rewrite_pfx': ch.bits(d)},
+                'workchain_id': ch.choice([0, -1, -128, 127]), 'address': R.Bytes(32).make(ch, 0, None)}
+
+    def amount(n):
+        return 0 if n == 0 else ch.choice([(1 << (8 * n)) - 1, 1 << (8 * n - 8), ch.int(1 << (8 * n - 8), (1 << (8 * n)) - 1)])
+    ecc = sorted([k_, v] for k_, v in {R.gen_uint(ch, 32): R.VarU(32).make(ch, 0, None) for _ in range(extra)}.items())
+    return {'_': 'int_msg_info', 'ihr_disabled': ch.bool(), 'bounce': ch.bool(), 'bounced': ch.bool(),
+            'src': addr(d1), 'dest': addr(dsum - d1),
+            'value': {'_': 'currencies', 'grams': amount(a), 'other': {'_': 'extra_currencies', 'dict': ecc}},
+            'ihr_fee': amount(b), 'fwd_fee': amount(k - a - b), 'created_lt': R.gen_uint(ch, 64),
+            'created_at': R.gen_uint(ch, 32)}
+
+
+def enum_near_full(tier):
+    """headers that leave 0..20 bits: the init / body Either bits themselves are at the capacity boundary"""
+    for rep in range(1 if tier == 'quick' else 4):
+        for hb in range(1003, 1024):
+            for shape in (None, '', 'Ss', 'CDL', 'SsCDL'):
+                for body in ('empty', 'bit', 'ref', 'cap', 'cap+1'):
+                    ch = R.HashChooser(f'c15-near-full/{rep}/{hb}/{shape}/{body}')
+                    info = _near_full_info(ch, hb, ch.choice([0, 0, 1]))
+                    init = _grid_init(ch, shape)
+                    msg = {'_': 'message', 'info': info, 'init': init, 'body': {'bits': '', 'refs': []}}
+                    h, hr, ib, ir, _, _ = sizes(msg)
+                    assert h == hb, (h, hb)
+                    pi, _ = greedy(msg)
+                    cb, cr = body_capacity(h, hr, ib, ir, init is not None, pi == 'left')
+                    nb, nr = {'empty': (0, 0), 'bit': (1, 0), 'ref': (0, 1), 'cap': (cb, max(cr, 0)), 'cap+1': (cb + 1, 0)}[body]
+                    msg['body'] = _mk_body(ch, min(max(nb, 0), 1023), min(max(nr, 0), 4))
+                    yield {'msg': msg}
 
 
 def enum_grid(tier):
@@ -807,6 +865,10 @@ SUBCHECKS = [
     Sub('message-grid', check_message, enum=enum_grid, classify=classify_msg, nontrivial=nontrivial_msg, shards=(16, 32),
         note='header kind x extra currencies x init shape x target init placement x body size at capacity -1/0/+1/min/max '
              '(bits) x the same for refs'),
+    Sub('message-near-full-header', check_message, enum=enum_near_full, classify=classify_msg, nontrivial=nontrivial_msg,
+        shards=(8, 16), note='internal headers of exactly 1003..1023 bits (two anycast addresses, sized amounts) x init '
+                             'shape x body empty / 1 bit / 1 ref / capacity / capacity+1: the Maybe and Either bits '
+                             'themselves sit at the capacity boundary; includes unrepresentable messages (vacuous)'),
     Sub('message-random', check_message, strategy=strat_message, classify=classify_msg, nontrivial=nontrivial_msg,
         n=(2000, 50000), shards=(16, 48)),
     Sub('wrappers-grid', check_wrapper, enum=enum_wrappers, classify=classify_wrapper, nontrivial=nontrivial_wrapper,
